@@ -10,6 +10,17 @@ use crate::basis::Basis;
 use crate::model::Jet;
 use crate::taylor::{self, Func};
 
+thread_local! {
+    static TRACK_U: std::cell::Cell<f64> = const { std::cell::Cell::new(1.1102230246251565e-16) };
+}
+/// unit roundoff of the type whose evaluation is being bounded (per thread)
+pub fn set_u(u: f64) {
+    TRACK_U.with(|c| c.set(u));
+}
+fn cur_u() -> f64 {
+    TRACK_U.with(|c| c.get())
+}
+
 #[derive(Clone, Debug)]
 pub struct Tr {
     pub v: Jet<f64>,
@@ -17,8 +28,16 @@ pub struct Tr {
 }
 
 impl Tr {
-    pub fn exact(v: Jet<f64>, b: &Basis) -> Tr {
-        Tr { v, e: Jet::zero(b) }
+    /// an input: exact up to the model's own representation rounding (division by alpha!)
+    pub fn exact(v: Jet<f64>, _b: &Basis) -> Tr {
+        let mut e = v.abs();
+        e.c[0] = 0.0;
+        Tr { v, e }
+    }
+    /// upper bound on the magnitude of the evaluated value: |model| + u * bound (keeps products of
+    /// two rounding residues inside the bound)
+    fn amax(&self) -> Jet<f64> {
+        self.v.abs().add(&self.e.scale(&cur_u()))
     }
     pub fn constant(b: &Basis, x: f64) -> Tr {
         Tr { v: Jet::constant(b, x), e: Jet::zero(b) }
@@ -41,8 +60,8 @@ impl Tr {
     }
     pub fn mul(&self, o: &Tr, b: &Basis) -> Tr {
         let v = self.v.mul(&o.v, b);
-        let a = self.v.abs();
-        let c = o.v.abs();
+        let a = self.amax();
+        let c = o.amax();
         let e = a.mul(&o.e, b).add(&c.mul(&self.e, b)).add(&a.mul(&c, b).scale(&2.0));
         Tr { v, e }
     }
@@ -63,7 +82,7 @@ impl Tr {
         let d = b.max_deg;
         assert!(g.len() >= d + 2 && gm.len() >= d + 2);
         let v = self.v.compose(&g[..=d], b);
-        let ax = self.v.abs();
+        let ax = self.amax();
         // local rounding: sum of |terms| with majorant coefficients
         let mag = ax.compose(&gm[..=d], b);
         // propagation: majorant of g' composed with |x~|, times e_x
@@ -75,7 +94,19 @@ impl Tr {
     pub fn func(&self, f: Func, b: &Basis) -> Tr {
         let d = b.max_deg;
         let g = taylor::taylor(f, self.re(), d + 2);
-        let gm = taylor::majorant(f, self.re(), &g);
+        let mut gm = taylor::majorant(f, self.re(), &g);
+        // integer and real powers go through x^(n-3) * x * x * x and a repeated-squaring powi:
+        // charge the extra roundings
+        let extra = match f {
+            Func::Powi(n) => 2.0 + (n.unsigned_abs().max(1) as f64).log2(),
+            Func::Powf(_) => 2.0,
+            _ => 1.0,
+        };
+        if extra != 1.0 {
+            for v in gm.iter_mut() {
+                *v *= extra;
+            }
+        }
         self.compose(&g, &gm, b)
     }
     pub fn recip(&self, b: &Basis) -> Tr {
